@@ -213,8 +213,27 @@ def main():
           elif cls == "InputLayer":
             elems.append(int(np.prod(lay.output.shape[1:]))); bits.append(8)
         events.append({"kind": "size", "total": int(total), "elems": elems, "bits": bits, "manual": int(manual)})
+  # the whole pipeline: hm.build(hp) on a compiled reference model -> trial size -> bonus -> score / trial_size metrics
+  if shard == 1 % nshards:
+    yt = tf.constant([[1., 0, 0], [0, 1, 0], [0, 0, 1], [1, 0, 0], [0, 1, 0]])
+    yp = tf.constant([[.9, .1, 0], [.8, .1, .1], [0, 0, 1], [0, 1, 0], [.2, .7, .1]])
+    mvec = [1, 0, 1, 0, 1]
+    for plan in rnd2.sample(plans, 5):
+      for stress in (1.0, 0.25):
+        m = ref_model()
+        m.compile(optimizer="sgd", loss="categorical_crossentropy", metrics=["acc"])
+        tb = ForgivingFactorBits(8, 8, 2, stress=stress, config={"default": ["parameters", "activations"]})
+        hm = AutoQKHyperModel(m, metrics=["acc"], target=tb, limit=dict({k: list(v) for k, v in LIMIT.items()}),
+                              layer_indexes=None, quantization_config=TABLE, tune_filters="none", tune_filters_exceptions="")
+        hp = StubHP({(s, r): c for (s, r, _), c in zip(slots, plan)})
+        hm.build(hp)
+        d = float(tb.delta())
+        sc = hm.score(yt, yp).numpy()
+        ts = float(hm.trial_size_metric(hm.trial_size)(yt, yp).numpy())
+        events.append({"kind": "score", "ref": int(round(float(tb.reference_size))), "trial": int(tb.trial_size), "sign": int(np.sign(d)),
+                       "d32": dy(np.float32(d)), "m": mvec, "score": [dy(v) for v in sc], "trialsize": int(ts)})
   for ev in events:
-    for k, v in (("arch", 1), ("idx", []), ("calls", []), ("res", []), ("ref", 0), ("trial", 0), ("sign", 0), ("delta", [0, 0]), ("series", 0),
+    for k, v in (("arch", 1), ("d32", [0, 0]), ("m", []), ("score", []), ("trialsize", 0), ("idx", []), ("calls", []), ("res", []), ("ref", 0), ("trial", 0), ("sign", 0), ("delta", [0, 0]), ("series", 0),
                  ("total", 0), ("elems", []), ("bits", [])):
       ev.setdefault(k, v)
   write_ndjson("%s.%d.ndjson" % (prefix, shard), events)
